@@ -328,7 +328,7 @@ func OnlyFailureEvents(seg types.ChangeLogSlice) string {
 			if ev, ok := l.NewVal.(*types.Event); ok && ev != nil && len(ev.Topics) == 1 && ev.Topics[0] == types.TopicRunFail && len(ev.Data) == 0 {
 				continue
 			}
-			return "event that is not the platform's failure event"
+			return "foreign-event"
 		}
 		return l.LogType.String()
 	}
